@@ -36,8 +36,15 @@ Causes(cer, D) == (IF ~IdentityOK(cer) THEN {5012} ELSE {})
 (* obs: [cea : [present, rc, oh, or, hostips, hbh, e2e, apps], closed,      *)
 (*       meta : [present, oh, or, apps]]                                    *)
 (* settings: [oh, or, hostips (configured, possibly empty), localips]       *)
+\* settings.cananswer = FALSE: no CEA can reach the peer (no address to put into it, or the transport
+\* refuses the write): nothing is observed on the wire, an unacceptable CER still closes the
+\* connection, and an acceptable one does not open the gate (no success CEA was written)
 Reasons(cer, D, settings, peer, obs) ==
-  IF ~obs.cea.present THEN <<"no-cea">>
+  IF ~settings.cananswer THEN
+       (IF obs.cea.present THEN <<"cea-from-nowhere">> ELSE <<>>)
+    \o (IF ~Accept(cer, D) /\ ~obs.closed THEN <<"not-closed">> ELSE <<>>)
+    \o (IF obs.meta.present THEN <<"metadata-without-cea">> ELSE <<>>)
+  ELSE IF ~obs.cea.present THEN <<"no-cea">>
   ELSE
      (IF obs.cea.hbh # cer.hbh \/ obs.cea.e2e # cer.e2e THEN <<"ids">> ELSE <<>>)
   \o (IF obs.cea.oh # settings.oh \/ obs.cea.or # settings.or THEN <<"identity">> ELSE <<>>)
